@@ -34,7 +34,9 @@ type edge struct {
 	Res  string   `json:"res"`
 }
 
-func (e edge) key() string { return fmt.Sprintf("%s/%s/walc=%v/%s/%s", e.Mode, e.PS, e.WalC, e.Role, e.Op) }
+func (e edge) key() string {
+	return fmt.Sprintf("%s/%s/walc=%v/%s/%s", e.Mode, e.PS, e.WalC, e.Role, e.Op)
+}
 
 type facts struct {
 	Pos   string
